@@ -100,8 +100,10 @@ def run(ctx):
             idx = ast.unparse(c.args[0]).split('[')[1].split(',')[0].strip()
             if idx == nname:
                 fe = FiniteEval(env, where=sm.rel)
-                ctx.anchor(len(nassign) == 1, 'index n of the z part')
-                idx = fe.ev(nassign[0].value)
+                live = [a_ for a_ in nassign
+                        if eval_guards(a_, jv, env, sm.rel)]
+                ctx.anchor(len(live) == 1, 'index n of the z part')
+                idx = fe.ev(live[0].value)
             got.append((int(idx) % (1 + hy + hz), ast.unparse(c.args[1])))
         want = [(0, 'self.model.property_x')]
         if hy:
